@@ -331,6 +331,35 @@ fn check_parse(text: &str) -> Option<Violation> {
                             }
                         }
                     }
+                    // the token kept by retain_lines must not fuse with a following word once the spaces are removed
+                    for (context, next) in [("local a = @ or b", "or"), ("for i = a, @ do end", "do"), ("return a == @ and b", "and")] {
+                        let src2 = context.replace('@', text);
+                        if let Ok(mut block2) = dl::parse(&src2, true) {
+                            let rule = dl::make_rule("'remove_spaces'");
+                            let resources = darklua_core::Resources::from_memory();
+                            if dl::apply(rule.as_ref(), &mut block2, &src2, &resources, "src/test.lua").is_ok() {
+                                if let Ok(out) = dl::generate(&block2, &src2, Gen::Retain) {
+                                    let ok = match lex(out.as_bytes(), Mode::Luau) {
+                                        Ok(l) => {
+                                            let pos = l.tokens.iter().position(|t| matches!(&t.tok, Tok::Number(v) if v.to_bits() == expected.to_bits() || (v.is_nan() && expected.is_nan())));
+                                            match pos {
+                                                Some(i) => matches!(l.tokens.get(i + 1).map(|t| &t.tok), Some(Tok::Name(n)) if n == next) || matches!(l.tokens.get(i + 1).map(|t| &t.tok), Some(Tok::Sym(s)) if *s == next),
+                                                None => false,
+                                            }
+                                        }
+                                        Err(_) => false,
+                                    };
+                                    if !ok {
+                                        return Some(Violation {
+                                            finding: None,
+                                            summary: format!("literal `{}` in `{}` after remove_spaces is written by retain_lines as `{}`: the number or the word after it is no longer the same token", text, src2, out.trim()),
+                                            replay: json!({"kind": "number neighbour", "text": text, "context": context, "output": out}),
+                                        });
+                                    }
+                                }
+                            }
+                        }
+                    }
                     None
                 }
                 other => Some(Violation {
@@ -353,7 +382,7 @@ fn check_parse(text: &str) -> Option<Violation> {
 
 /// pieces of string literal source text: escapes of every form, and the characters that may follow them
 const LITERAL_PIECES: &[&str] = &[
-    "\\0", "\\9", "\\10", "\\065", "\\255", "\\010", "\\001", "\\000", "\\09", "\\x41", "\\x0a", "\\xFF", "\\u{41}", "\\u{7FF}", "\\u{10FFFF}", "\\u{0}", "\\z ", "\\z\n  ", "\\\n", "\\n", "\\r", "\\t",
+    "\\0", "\\9", "\\10", "\\065", "\\255", "\\010", "\\001", "\\000", "\\09", "\\x41", "\\x0a", "\\xFF", "\\u{41}", "\\u{7FF}", "\\u{10FFFF}", "\\u{0}", "\\u{D800}", "\\u{DFFF}", "\\u{110000}", "\\u{FFFFFFFFF}", "\\u{}", "\\u{g}", "\\x4", "\\256", "\\q", "\\z ", "\\z\n  ", "\\\n", "\\n", "\\r", "\\t",
     "\\a", "\\b", "\\f", "\\v", "\\\\", "\\\"", "\\'", "0", "1", "9", "a", "F", "f", " ", "{", "}", "x", "u", "z", "é",
 ];
 
@@ -434,7 +463,7 @@ pub fn run(tier: Tier) -> Report {
         5.1 rules. numbers: +-0, inf, nan, all 2098 powers of two, all powers of ten and 1.5/9.99..e(k), each +-1 ulp (2 in thorough), 2^53 neighbours, \
         hard cases; via Expression::from(f64) and DecimalNumber with recorded exponents -3..+3 and both cases; read back by luaref (bit-exact). parsing: \
         every text over `0-9 _ . e E x X b B a F + -` up to 5 (6) characters that luaref lexes as one Luau number is parsed by darklua and \
-        compute_value() compared bit-exactly; every sequence of up to 2 (3) pieces from 42 string-literal pieces (every escape form, digits and hex digits that may follow one, braces) in double quotes, single quotes and backticks is parsed by darklua and its value compared with the luaref lexer's. non-trivial = the writer had to escape or choose a quoting form / the number needs more than 3 digits"
+        compute_value() compared bit-exactly; every sequence of up to 2 (3) pieces from 51 string-literal pieces (every escape form, digits and hex digits that may follow one, braces) in double quotes, single quotes and backticks is parsed by darklua and its value compared with the luaref lexer's. non-trivial = the writer had to escape or choose a quoting form / the number needs more than 3 digits"
         .to_owned();
     report.assumptions = vec![
         "the luaref lexer implements Lua 5.1 and Luau escape and numeral rules (manual §2.1; Luau lexer)".to_owned(),
